@@ -356,16 +356,32 @@ func (s *stream) pumpHostToRenter() {
 		return
 	}
 	silent := false
+	hostGone := false
 	for i, mk := range s.table.host {
 		m := &Msg{Stream: s.id, RPC: s.rpc, Name: s.table.name, Dir: HostToRenter, Index: i}
 		m.Obj = mk()
-		if err := rhp4.ReadResponse(s.mh, m.Obj); err != nil {
+		if hostGone {
+			m.Synthetic = true
+		} else if err := rhp4.ReadResponse(s.mh, m.Obj); err != nil {
 			var re *rhp4.RPCError
 			if errors.As(err, &re) {
 				m.Err = re
+			} else if s.hook == nil || silent {
+				return
 			} else {
+				// the server is gone: offer the remaining messages of the table to
+				// the hook as synthetic ones
+				hostGone = true
+				m.Obj = mk()
+				m.Synthetic = true
+			}
+		}
+		if m.Synthetic {
+			stop, _ := s.dispatch(m, s.mr)
+			if stop {
 				return
 			}
+			continue
 		}
 		if m.Err == nil && s.rpc == rhp4.RPCReadSectorID {
 			resp := m.Obj.(*rhp4.RPCReadSectorResponse)
@@ -390,6 +406,12 @@ func (s *stream) pumpHostToRenter() {
 	if silent {
 		io.Copy(io.Discard, s.mh)
 		// stay open towards the renter until it gives up
+		<-s.mr.PeerClosed()
+		return
+	}
+	if hostGone {
+		// synthetic answers were delivered: the renter may still be writing its
+		// part; stay open towards it until it is done
 		<-s.mr.PeerClosed()
 		return
 	}
